@@ -9,7 +9,8 @@ import random
 ID = "C08"
 LEVEL = "exploration"
 BUDGET = {"quick": 50, "thorough": 900}
-FLOOR = {"quick": 100, "thorough": 1500}
+QUICK_CASES = 2400  # generator items in the quick tier (fixed amount of work; BUDGET is then only a safety cap)
+FLOOR = {"quick": 800, "thorough": 1500}
 TIMEOUT = 90
 REQUIRED_OBS = ["runs_observed", "msgs_sent", "pairs_matching", "pairs_not_matching", "emitted_checked", "mqtt_runs", "webhook_runs"]
 RULE = (
